@@ -163,11 +163,24 @@ class PreAggregationMatcher:
         """
         import re
 
+        import sqlglot
+        from sqlglot import exp
+
         columns = set()
         for filter_expr in filters:
-            # Remove model prefix if present (e.g., "orders.status" -> "status")
-            # Simple regex to extract column names before operators
-            # This handles: column = value, column >= value, etc.
+            # Collect every column the predicate mentions, whatever its syntactic form
+            # (IN, BETWEEN, LIKE, IS NULL, literal-first comparisons, ...)
+            try:
+                parsed = sqlglot.parse_one(filter_expr)
+            except Exception:
+                parsed = None
+            if parsed is not None:
+                for col in parsed.find_all(exp.Column):
+                    columns.add(col.name)
+                continue
+
+            # Not parseable as an expression (e.g. templated): fall back to the
+            # simple regex for "column <op> value"
             matches = re.findall(r"(\w+\.)?(\w+)\s*[=<>!]", filter_expr)
             for match in matches:
                 # match[0] is model prefix (optional), match[1] is column name
